@@ -1,246 +1,10 @@
 import OpcuaVerif.Model.C15
+import OpcuaVerif.Proofs.SrvConn
 
 /-!
 C15 — No service is processed before the handshake or after channel close.
-`only_hello_first`, `no_service_before_open`, `first_open_is_issue`, `nothing_after_close`,
-`clo_closes` over every frame history of one connection; counterexample for the pinned source.
+The theorems are in `Proofs/SrvConn.lean` (namespace `OpcuaVerif.SrvConn`), stated over histories
+of Hello / non-chunk frames and chunks of every type and flag:
+`only_hello_first`, `no_service_before_open`, `first_open_is_issue`, `clo_closes`,
+`nothing_after_close`, `nothing_after_error`, `C15_counterexample_service_before_open`.
 -/
-namespace OpcuaVerif.C15
-open OpcuaVerif.C11 OpcuaVerif.C12
-
-/-- Until the first ACK, the connection produced nothing but (at most) errors that closed it. -/
-def okBeforeAck : List Out → Bool
-  | [] => true
-  | .ack :: _ => true
-  | .closeErr _ :: r => okBeforeAck r
-  | .ignored :: r => okBeforeAck r
-  | _ :: _ => false
-
-/-- No service response precedes the first OpenSecureChannel response. -/
-def noServiceUntilOpen : List Out → Bool
-  | [] => true
-  | .opnResponse _ _ _ :: _ => true
-  | .service _ _ :: _ => false
-  | _ :: r => noServiceUntilOpen r
-
-theorem closed_ignores (g : Bool) : ∀ (fs : List Frame) (c : Conn), c.phase = .closed →
-    ∀ o ∈ runWith g c fs, o = .ignored := by
-  intro fs
-  induction fs with
-  | nil => intro c _ o ho; simp [runWith] at ho
-  | cons f fs ih =>
-    intro c hc o ho
-    have hs : stepWith g c f = (c, .ignored) := by simp [stepWith, hc]
-    simp only [runWith, hs, List.mem_cons] at ho
-    rcases ho with h | h
-    · exact h
-    · exact ih c hc o h
-
-theorem okBeforeAck_of_ignored : ∀ (l : List Out), (∀ o ∈ l, o = .ignored) → okBeforeAck l = true := by
-  intro l
-  induction l with
-  | nil => intro _; rfl
-  | cons o r ih =>
-    intro h
-    have := h o (by simp)
-    subst this
-    exact ih (fun o ho => h o (by simp [ho]))
-
-theorem noService_of_ignored : ∀ (l : List Out), (∀ o ∈ l, o = .ignored) → noServiceUntilOpen l = true := by
-  intro l
-  induction l with
-  | nil => intro _; rfl
-  | cons o r ih =>
-    intro h
-    have := h o (by simp)
-    subst this
-    exact ih (fun o ho => h o (by simp [ho]))
-
-theorem closeWith_phase (c : Conn) (e : String) : (closeWith c e).1.phase = .closed ∧ (closeWith c e).2 = .closeErr e :=
-  ⟨rfl, rfl⟩
-
-/-- **Nothing but a Hello is answered first.** For every frame history on a fresh connection, the
-outputs up to the first ACK are only connection-closing errors. -/
-theorem only_hello_first (g : Bool) (fs : List Frame) : okBeforeAck (runWith g Conn.init fs) = true := by
-  have gen : ∀ (fs : List Frame) (c : Conn), c.phase = .waitingHello → okBeforeAck (runWith g c fs) = true := by
-    intro fs
-    induction fs with
-    | nil => intro c _; rfl
-    | cons f fs ih =>
-      intro c hc
-      simp only [runWith]
-      cases f with
-      | hel k =>
-        cases k <;> simp only [stepWith, hc, processHello, closeWith, okBeforeAck] <;>
-          exact okBeforeAck_of_ignored _ (closed_ignores g fs _ rfl)
-      | ack => simp only [stepWith, hc, closeWith, okBeforeAck]; exact okBeforeAck_of_ignored _ (closed_ignores g fs _ rfl)
-      | opn r ci => simp only [stepWith, hc, closeWith, okBeforeAck]; exact okBeforeAck_of_ignored _ (closed_ignores g fs _ rfl)
-      | msg s ci => simp only [stepWith, hc, closeWith, okBeforeAck]; exact okBeforeAck_of_ignored _ (closed_ignores g fs _ rfl)
-      | clo ci => simp only [stepWith, hc, closeWith, okBeforeAck]; exact okBeforeAck_of_ignored _ (closed_ignores g fs _ rfl)
-  exact gen fs Conn.init rfl
-
-/-- one step of a connection on which no channel was issued: either it still is not issued and the
-output is no service response, or the output is an OpenSecureChannel response -/
-theorem step_not_issued (c : Conn) (f : Frame) (hi : c.issued = false) :
-    (∃ a b r, (step c f).2 = .opnResponse a b r) ∨
-    ((step c f).1.issued = false ∧ ∀ s r, (step c f).2 ≠ .service s r) := by
-  unfold step stepWith
-  cases hp : c.phase with
-  | closed => right; simp [hi]
-  | waitingHello =>
-    right
-    cases f with
-    | hel k => cases k <;> simp [processHello, closeWith, hi]
-    | _ => simp [closeWith, hi]
-  | processing =>
-    cases f with
-    | hel k => right; simp [closeWith, hi]
-    | ack => right; simp [closeWith, hi]
-    | msg s ci => right; simp [processChunk, closeWith, hi]
-    | clo ci =>
-      right
-      simp only [processChunk, seqCheck]
-      cases recv c.lastSeq c.chanId [some ci] <;> simp [closeWith, hi]
-    | opn renew ci =>
-      simp only [processChunk, seqCheck]
-      cases recv c.lastSeq c.chanId [some ci] with
-      | ok l =>
-        cases renew with
-        | true => right; simp [closeWith, hi]
-        | false => left; simp
-      | err e => right; simp [closeWith, hi]
-      | panic => right; simp [closeWith, hi]
-
-/-- **No service before an OpenSecureChannel.** For every frame history on a fresh connection, no
-response of the service layer is produced before the connection has answered an OpenSecureChannel
-request. -/
-theorem no_service_before_open (fs : List Frame) : noServiceUntilOpen (run Conn.init fs) = true := by
-  have gen : ∀ (fs : List Frame) (c : Conn), c.issued = false → noServiceUntilOpen (run c fs) = true := by
-    intro fs
-    induction fs with
-    | nil => intro c _; rfl
-    | cons f fs ih =>
-      intro c hi
-      show noServiceUntilOpen ((step c f).2 :: run (step c f).1 fs) = true
-      rcases step_not_issued c f hi with ⟨a, b, r, h⟩ | ⟨h1, h2⟩
-      · rw [h]; rfl
-      · have := ih (step c f).1 h1
-        cases ho : (step c f).2 with
-        | service s r => exact absurd ho (h2 s r)
-        | ack => exact this
-        | opnResponse a b r => rfl
-        | closeErr e => exact this
-        | ignored => exact this
-  exact gen fs Conn.init rfl
-
-/-- the first OpenSecureChannel response of a connection answers an Issue, never a Renew -/
-theorem renew_needs_issue (c : Conn) (ci : CI) (hi : c.issued = false) :
-    ∀ a b r, (step c (.opn true ci)).2 ≠ .opnResponse a b r := by
-  intro a b r
-  unfold step stepWith
-  cases hp : c.phase with
-  | closed => simp
-  | waitingHello => simp [closeWith]
-  | processing =>
-    simp only [processChunk, seqCheck]
-    cases recv c.lastSeq c.chanId [some ci] <;> simp [closeWith, hi]
-
-/-- a CloseSecureChannel never produces a response and always leaves the connection closed -/
-theorem clo_closes (g : Bool) (c : Conn) (ci : CI) :
-    (stepWith g c (.clo ci)).1.phase = .closed ∧
-    ((∃ e, (stepWith g c (.clo ci)).2 = .closeErr e) ∨ (stepWith g c (.clo ci)).2 = .ignored) := by
-  unfold stepWith
-  cases hp : c.phase with
-  | closed => simp [hp]
-  | waitingHello => simp [closeWith]
-  | processing =>
-    simp only [processChunk, seqCheck]
-    cases recv c.lastSeq c.chanId [some ci] <;> simp [closeWith]
-
-theorem runWith_length (g : Bool) : ∀ (fs : List Frame) (c : Conn), (runWith g c fs).length = fs.length := by
-  intro fs
-  induction fs with
-  | nil => intro c; rfl
-  | cons f fs ih => intro c; simp [runWith, ih]
-
-theorem runWith_append (g : Bool) : ∀ (a b : List Frame) (c : Conn),
-    runWith g c (a ++ b) = runWith g c a ++ runWith g ((a.foldl (fun c f => (stepWith g c f).1) c)) b := by
-  intro a
-  induction a with
-  | nil => intro b c; rfl
-  | cons f fs ih => intro b c; simp [runWith, ih]
-
-/-- **Nothing after close.** Whatever came before, once a CloseSecureChannel frame has been
-delivered, every later frame is ignored (no response, no processing). -/
-theorem nothing_after_close (g : Bool) (pre post : List Frame) (ci : CI) (c : Conn) :
-    ∃ outsPre o, runWith g c (pre ++ .clo ci :: post) = outsPre ++ o :: List.replicate post.length .ignored ∧
-      outsPre.length = pre.length := by
-  rw [runWith_append]
-  refine ⟨runWith g c pre, (stepWith g (pre.foldl (fun c f => (stepWith g c f).1) c) (.clo ci)).2, ?_, ?_⟩
-  · congr 1
-    simp only [runWith]
-    congr 1
-    have hcl := (clo_closes g (pre.foldl (fun c f => (stepWith g c f).1) c) ci).1
-    have := closed_ignores g post _ hcl
-    have hlen := runWith_length g post (stepWith g (pre.foldl (fun c f => (stepWith g c f).1) c) (.clo ci)).1
-    exact List.eq_replicate_iff.2 ⟨hlen, this⟩
-  · exact runWith_length g pre c
-
-/-- the same after ANY error that ended the reading loop -/
-theorem nothing_after_error (g : Bool) (c : Conn) (f : Frame) (e : String) (post : List Frame)
-    (h : (stepWith g c f).2 = .closeErr e) :
-    runWith g (stepWith g c f).1 post = List.replicate post.length .ignored := by
-  have hph : (stepWith g c f).1.phase = .closed := by
-    unfold stepWith at h ⊢
-    cases hp : c.phase with
-    | closed => simp [hp] at h
-    | waitingHello =>
-      cases f with
-      | hel k => cases k <;> simp_all [processHello, closeWith]
-      | _ => simp [closeWith]
-    | processing =>
-      cases f with
-      | hel k => simp [closeWith]
-      | ack => simp [closeWith]
-      | clo ci =>
-        simp only [processChunk, seqCheck]
-        cases recv c.lastSeq c.chanId [some ci] <;> simp [closeWith]
-      | msg s ci =>
-        simp only [hp, processChunk, seqCheck] at h ⊢
-        split
-        · simp [closeWith]
-        · rename_i hg
-          simp only [hg, ↓reduceIte] at h
-          cases hr : recv c.lastSeq c.chanId [some ci] <;> simp_all [closeWith]
-      | opn renew ci =>
-        simp only [hp, processChunk, seqCheck] at h ⊢
-        cases hr : recv c.lastSeq c.chanId [some ci] with
-        | ok l =>
-          simp only [hr] at h ⊢
-          cases renew with
-          | true =>
-            simp only [↓reduceIte] at h ⊢
-            split
-            · simp [closeWith]
-            · rename_i hh; simp [hh] at h
-          | false => simp at h
-        | err e => simp [closeWith]
-        | panic => simp [closeWith]
-  have := closed_ignores g post _ hph
-  have hlen := runWith_length g post (stepWith g c f).1
-  exact List.eq_replicate_iff.2 ⟨hlen, this⟩
-
-/-- pinned source (no guard): after HEL, a GetEndpoints request is answered without any
-OpenSecureChannel -/
-theorem C15_counterexample_service_before_open :
-    runWith false Conn.init [.hel .valid, .msg .getEndpoints ⟨0, 1, 41⟩] = [.ack, .service .getEndpoints 41] ∧
-    noServiceUntilOpen (runWith false Conn.init [.hel .valid, .msg .createSession ⟨0, 1, 41⟩]) = false := by
-  constructor <;> decide
-
-/-- non-vacuity: an orderly connection does get its services answered -/
-example : run Conn.init [.hel .valid, .opn false ⟨0, 1, 41⟩, .msg .getEndpoints ⟨1, 2, 42⟩, .opn true ⟨1, 3, 43⟩,
-      .msg .createSession ⟨1, 4, 44⟩, .clo ⟨1, 5, 45⟩, .msg .getEndpoints ⟨1, 6, 46⟩]
-    = [.ack, .opnResponse 1 1 41, .service .getEndpoints 42, .opnResponse 1 2 43, .service .createSession 44,
-       .closeErr "BadConnectionClosed", .ignored] := by decide
-
-end OpcuaVerif.C15
